@@ -19,7 +19,16 @@ func (b *BlockSpec) isEnd(from, to *ssa.BasicBlock) bool { return b.endEdge != n
 // contract is marked "opt functional" (its result is a function of its scalar
 // arguments); the call denotes that function.
 func (v *Verifier) libSpecCall(x *Exec, env *Env, e *SCall) (Value, bool) {
-	key := v.resolveLibName(e.Fun)
+	fun := e.Fun
+	sel := -1
+	if i := strings.LastIndex(fun, "_"); i > 0 && i == len(fun)-2 && fun[i+1] >= '0' && fun[i+1] <= '9' {
+		// F_0(args), F_1(args): the i-th result of a functional routine with several results
+		if c0 := v.cs.Contracts[v.resolveLibName(fun[:i])]; c0 != nil && c0.Opts["functional"] != "" {
+			sel = int(fun[i+1] - '0')
+			fun = fun[:i]
+		}
+	}
+	key := v.resolveLibName(fun)
 	c := v.cs.Contracts[key]
 	if c == nil || c.Opts["functional"] == "" {
 		return nil, false
@@ -37,7 +46,14 @@ func (v *Verifier) libSpecCall(x *Exec, env *Env, e *SCall) (Value, bool) {
 		}
 		args = append(args, a.T)
 	}
-	return x.functionalApp(key, c, fn, args), true
+	res := x.functionalApp(key, c, fn, args)
+	if tup, ok := res.(Tuple); ok {
+		if sel < 0 || sel >= len(tup) {
+			env.fail("%s has %d results: write %s_0(...), %s_1(...)", e.Fun, len(tup), e.Fun, e.Fun)
+		}
+		return tup[sel], true
+	}
+	return res, true
 }
 
 func (v *Verifier) resolveLibName(name string) string {
@@ -68,7 +84,7 @@ func (v *Verifier) resolveLibName(name string) string {
 func (x *Exec) functionalApp(key string, c *Contract, fn *ssa.Function, args []*Term) Value {
 	sig := fn.Signature
 	if sig.Results().Len() != 1 {
-		unsup("functional spec %s must have exactly one result", key)
+		return x.functionalAppN(key, c, fn, args)
 	}
 	rt := sig.Results().At(0).Type()
 	fname := "f_" + sanitize(key)
@@ -217,6 +233,76 @@ func (v *Verifier) recFuncDecls(x *Exec) []string {
 		if ri := x.recFuncs[n]; ri != nil && ri.decl != "" {
 			out = append(out, ri.decl)
 		}
+	}
+	return out
+}
+
+// functionalAppN: a functional routine with several results is one
+// uninterpreted function per result.
+func (x *Exec) functionalAppN(key string, c *Contract, fn *ssa.Function, args []*Term) Value {
+	sig := fn.Signature
+	n := sig.Results().Len()
+	base := "f_" + sanitize(key)
+	mk := func(i int, as []*Term) *Term {
+		rt := sig.Results().At(i).Type()
+		return App(fmt.Sprintf("%s_%d", base, i), x.ti.SortOf(rt), as...)
+	}
+	if !x.declared[base+"_0"] {
+		var ps []string
+		for i := 0; i < sig.Params().Len(); i++ {
+			ps = append(ps, string(x.ti.SortOf(sig.Params().At(i).Type())))
+		}
+		for i := 0; i < n; i++ {
+			x.declareFun(fmt.Sprintf("%s_%d", base, i), fmt.Sprintf("(declare-fun %s_%d (%s) %s)", base, i, strings.Join(ps, " "), x.ti.SortOf(sig.Results().At(i).Type())))
+		}
+		var bound, guards []*Term
+		vars := map[string]Value{}
+		for i := 0; i < sig.Params().Len(); i++ {
+			pt := sig.Params().At(i).Type()
+			x.counter++
+			b := Atom(fmt.Sprintf("q!%d", x.counter), x.ti.SortOf(pt))
+			bound = append(bound, b)
+			guards = append(guards, x.ti.WF(b, pt, nil)...)
+			name := fmt.Sprintf("_p%d", i)
+			if i < len(c.Params) {
+				name = c.Params[i]
+			}
+			vars[name] = TV{b, pt}
+		}
+		env := &Env{x: x, vars: vars, heap: map[string]*Term{}, st: &State{heap: map[string]*Term{}}}
+		var body []*Term
+		var pats []*Term
+		for i := 0; i < n; i++ {
+			rt := sig.Results().At(i).Type()
+			app := mk(i, bound)
+			name := ""
+			if i < len(c.Results) {
+				name = c.Results[i]
+			}
+			if name == "" {
+				name = sig.Results().At(i).Name()
+			}
+			if name != "" {
+				vars[name] = TV{app, rt}
+			}
+			vars[fmt.Sprintf("result%d", i)] = TV{app, rt}
+			body = append(body, x.ti.WF(app, rt, nil)...)
+			if i == 0 {
+				pats = append(pats, app)
+			}
+		}
+		for _, e := range c.Ensures {
+			body = append(body, x.compileBool(env, e.Expr, e))
+		}
+		ax := Implies(And(guards...), And(body...))
+		if !ax.IsTrue() {
+			x.axioms = append(x.axioms, &Term{Op: "forall", Sort: SBool, Bound: bound, Args: []*Term{ax}, Pats: pats})
+		}
+		x.assumeNote("functional contract (result is a function of the arguments): " + key)
+	}
+	var out Tuple
+	for i := 0; i < n; i++ {
+		out = append(out, TV{mk(i, args), sig.Results().At(i).Type()})
 	}
 	return out
 }
